@@ -55,7 +55,7 @@ def plan(tier):
                       defines=['VF_TIER=%d' % t], gen={'programs.inc': '\n'.join(und) + '\n'}, shards=4))
     return dict(
         units=units,
-        rule='register machine: every state (a,b) of static_integer<D,R,O,int8_t> / static_number<D,E,R,O,int8_t> x transitions {a=T(a op b), a op= b for + - * /, a=-a, ++a, --a, six comparisons}; '
+        rule='register machine: every state (a,b) of static_integer<D,R,O,int8_t> / static_number<D,E,R,O,int8_t> x transitions {a=T(a op b), a op= b for + - * /, a=-a, ++a, --a, a++, a--, six comparisons}; '
              'expression trees: all trees with <= 2 operator nodes over {+,-,*,/} (thorough: plus 16 three-operator shapes) over all leaf values, un-narrowed result and result narrowed back to the leaf type; '
              'storage boundaries D in {7..200} over lattice leaves; every state counts as non-trivial (each runs >= 1 narrowing or multi-operator history)',
         bound=dict(programs=len(lines) + len(und), max_depth=3 if t else 2, rounding=R, overflow=O + ['undefined (CNL_DEBUG)']),
